@@ -262,6 +262,16 @@ def run(rep, tier):
                     guards_ok = False
     rep.check(order == ["WriteDist", "WriteIMCData", "WriteIMCBlock", "ClearAverages"] and guards_ok, "R4.5", "block-order",
               "every block_length frames: write distributions, IMC data, IMC block, then clear", "MergeWorker block output order/condition is %s (guards ok: %s)" % (order, guards_ok), fm.loc(), sample=True)
+    # every per-block accumulator of this frame is updated before the block is written and cleared: an update placed behind the
+    # block output enters the next block instead (and is missing from the one just written)
+    accs = [(i_, e) for i_, e in enumerate(fo.events) if (e["kind"] == "store" and (e["target"] == "nframes_" or "average_" in e["target"])) or
+            (e["kind"] == "call" and (e["callee"].endswith("::Process") or e["callee"].endswith("DoCorrelations")))]
+    outs = [i_ for i_, e in enumerate(fo.events) if e in blk]
+    late = [e for i_, e in accs if outs and i_ > min(outs)]
+    rep.floor("R4.5", len(accs), 4, "accumulator updates in MergeWorker")
+    rep.check(bool(outs) and not late, "R4.5", "accumulate-before-output", "frame count, average volume, means and correlations are all updated before the block is written and cleared",
+              "MergeWorker updates %s after the block output (WriteDist/WriteIMC*/ClearAverages): the frame that completes a block is missing from that block's %s and leaks into the next block" % (
+                  [(e.get("target") or e["callee"].split("::")[-1] + "(" + str(e.get("obj")) + ")") for e in late], "normalisation/averages"), fm.loc(late[0]["node"]) if late else fm.loc(), sample=True)
     dcor = [e for e in fo.events if e["kind"] == "call" and e["callee"].endswith("DoCorrelations")]
     mean_nodes = [e for e in stores if "average_" in e["target"]]
     g = CFG(fm)
